@@ -25,7 +25,7 @@ impl Phase for Mutations {
         let depth = r.range(1, 6);
         let ast = {
             let vars = ["a", "b", "x"];
-            let funs = ["f", "t"];
+            let funs = ["f", "t", "if", "if", "min"];
             let mut g = AstGen {
                 r,
                 vars: &vars,
